@@ -816,6 +816,15 @@ def hGet (w : World) (layer : Nat) (t : Option Name) (calibrate : Bool) : Except
         | .ok (out, h2) => .ok ({ cells := r.1.fields, items := out }, h2)
       else .ok ({ cells := r.1.fields, items := r.1.fields.map (fun e => (e.1, r.2.cell e.2, none)) }, r.2)
 
+/-- every cell of the returned array was allocated by the call (`h`: the memory before the call) -/
+def RRes.allNew (r : RRes) (h : Heap) : Prop := ∀ e ∈ r.cells, h.cells.length ≤ e.2
+
+/-- when `get` hands out stored memory: a single element of a `Laser` (not an `SRRLaser`), read
+uncalibrated or calibrated by an identity calibration -/
+def returnsView (w : World) (t : Option Name) (calibrate : Bool) : Prop :=
+  w.laser.srr = false ∧ ∃ n, t = some n ∧
+    (calibrate = false ∨ ∃ k, get? (w.heap.dict w.laser.cal) n = some k ∧ w.heap.calOf k = 0)
+
 inductive HOp
   | add (n : Name) (xs : List ArrIn) (cal : Option Nat)
   | remove (ns : List Name)
